@@ -35,7 +35,7 @@ def run(ctx):
     cases = os.path.join(ctx["rundir"], "cases.txt")
     if not os.path.exists(cases):
         return {}
-    cls = collections.Counter(); outcome = collections.Counter(); depth = collections.Counter(); lines = collections.Counter()
+    cls = collections.Counter(); outcome = collections.Counter(); depth = collections.Counter(); lines = collections.Counter(); deep = collections.Counter()
     for line in open(cases):
         if not line.startswith("702 "):
             lines[line.split(" ", 1)[0]] += 1
@@ -45,6 +45,18 @@ def run(ctx):
         i += 1  # bytes
         api = int(t[i][1:]); nq = int(t[i + 1][1:]); i += 2
         lines["702 api %d" % api] += 1
+        if api in (7, 10):
+            # recursive loads: the deepest message level a query of this line addresses (field steps through messages)
+            mx = 0
+            for _ in range(nq):
+                n = int(t[i][1:]); i += 1
+                lv = sum(1 for s_ in range(n) if t[i + 2 * s_] in ("n1", "n2"))
+                i += 2 * n + 4
+                mx = max(mx, lv)
+            for b in (10, 500, 1000, 1023, 1024, 1500, 5000):
+                if mx >= b:
+                    deep["recursive-load api %d depth>=%d" % (api, b)] += 1
+            continue
         if api not in (1, 2):
             continue
         for _ in range(nq):
@@ -105,8 +117,13 @@ def run(ctx):
               "field-id:found", "field-id:not-found"):
         if outcome[o] == 0:
             missing.append("outcome " + o)
+    # deep class: Load(recurse=true) / Children(recurse=true) on values nested up to 5000 levels
+    for api in (7, 10):
+        for b in (1024,):
+            if deep["recursive-load api %d depth>=%d" % (api, b)] == 0:
+                missing.append("recursive-load api %d depth>=%d" % (api, b))
     ev = {"getbypath_last_step_classes": dict(sorted(cls.items())), "getbypath_outcomes": dict(sorted(outcome.items())),
-          "path_length_histogram": {str(k): v for k, v in sorted(depth.items())}, "case_lines": dict(sorted(lines.items())),
+          "path_length_histogram": {str(k): v for k, v in sorted(depth.items())}, "case_lines": dict(sorted(lines.items())), "recursive_load_depths": dict(sorted(deep.items())),
           "required_classes_missing": missing}
     res = {"evidence": ev}
     if missing:
